@@ -31,11 +31,15 @@ def worker_init():
     _SEED[0] = int(os.environ.get("VERIF_SEED", "0") or 0)
 
 
+_TIER = ["quick"]
+
+
 def yaws(seed):
-    """24 multiples of pi/12 shifted by the seed's offset, plus the exact cardinal headings (0, +-pi/2, pi) where quaternion
-    components vanish."""
+    """24 (thorough: 48) equally spaced yaws shifted by the seed's offset, plus the exact cardinal headings (0, +-pi/2, pi) where
+    quaternion components vanish."""
     off = OFFSETS[seed % len(OFFSETS)]
-    ys = [geom.wrap(k * math.pi / 12 + off) for k in range(-11, 13)]
+    n = 12 if _TIER[0] == "quick" else 24
+    ys = [geom.wrap(k * math.pi / n + off) for k in range(-n + 1, n + 1)]
     for c in (0.0, math.pi / 2, -math.pi / 2, math.pi):
         if all(abs(c - y) > 1e-12 for y in ys):
             ys.append(c)
@@ -43,18 +47,21 @@ def yaws(seed):
 
 
 def units(tier, seed):
+    _TIER[0] = tier
     egos = G.ego_menu(seed)
     frames = [("base_link", egos[0])] + [("map", e) for e in egos]
     rps = [(0.0, 0.0), (0.02, -0.02)] if tier == "quick" else [(0.0, 0.0), (0.02, -0.02), (0.0, 0.03), (-0.05, 0.0)]
-    return [dict(frame=f, ego=list(e), rp=list(rp), ye=k) for f, e in frames for rp in rps for k in range(len(yaws(seed)))]
+    return [dict(frame=f, ego=list(e), rp=list(rp), ye=k, tier=tier) for f, e in frames for rp in rps for k in range(len(yaws(seed)))]
 
 
 def bounds(tier, seed):
+    _TIER[0] = tier
     return {"yaws": len(yaws(seed)), "offset": OFFSETS[seed % len(OFFSETS)], "quaternion_signs": 4, "frames": "ego + 4 map renderings",
             "roll_pitch": 2 if tier == "quick" else 4}
 
 
 def run_unit(unit, acc):
+    _TIER[0] = unit.get("tier", "quick")
     Y = yaws(_SEED[0])
     ye = Y[unit["ye"]]
     for yg in Y:
